@@ -1,4 +1,5 @@
 import SfVerif.Model.Tramp
+import SfVerif.Lemmas.Tramp2
 import SfVerif.Props.C04
 /-! C07 — trampolining preserves the guest, is idempotent, refuses what it cannot handle.
     Proved here: the acceptance / refusal logic (over the tables regenerated from
@@ -31,57 +32,6 @@ theorem C07_reject_other_version (m : Summary) (h1 : m.ownMems = 1) (i : Imp) (h
   · have hany2 : m.imports.any (fun i => versionPrefix.isPrefixOf i.module && i.module != provider) = true := by
       rw [List.any_eq_true]; exact ⟨i, hi, by simp [hp, hne]⟩
     exact ⟨2, by simp [apply, h1, hany1, hany2]⟩
-
-/-- walking the table never changes the module of an import it keeps, and everything it adds is in
-    the provider namespace -/
-theorem applyPairs_modules : ∀ (pairs : List (List Nat × List Nat)) (imps added : List Imp) (nm : Bool)
-    (imps' added' : List Imp) (nm' : Bool),
-    applyPairs pairs imps added nm = .ok (imps', added', nm') →
-    (∀ a ∈ added, a.module = provider) →
-    (∀ j ∈ imps', ∃ i ∈ imps, i.module = j.module ∧ i.kind = j.kind) ∧ (∀ a ∈ added', a.module = provider) := by
-  intro pairs
-  induction pairs with
-  | nil =>
-    intro imps added nm imps' added' nm' h hadd
-    simp [applyPairs] at h
-    obtain ⟨rfl, rfl, _⟩ := h
-    exact ⟨fun j hj => ⟨j, hj, rfl, rfl⟩, hadd⟩
-  | cons p rest ih =>
-    intro imps added nm imps' added' nm' h hadd
-    obtain ⟨orig, new⟩ := p
-    unfold applyPairs at h
-    split at h
-    · -- string-carrying import
-      split at h
-      · exact ih _ _ _ _ _ _ h hadd
-      · rename_i i hfind
-        split at h
-        · cases h
-        · have := ih _ _ _ _ _ _ h (by
-            intro a ha
-            rw [List.mem_append] at ha
-            rcases ha with ha | ha
-            · exact hadd a ha
-            · simp only [List.mem_map] at ha
-              obtain ⟨_, _, rfl⟩ := ha
-              rfl)
-          refine ⟨?_, this.2⟩
-          intro j hj
-          obtain ⟨i', hi', hm⟩ := this.1 j hj
-          exact ⟨i', (List.mem_filter.mp hi').1, hm⟩
-    · split at h
-      · exact ih _ _ _ _ _ _ h hadd
-      · rename_i i hfind
-        split at h
-        · cases h
-        · have := ih _ _ _ _ _ _ h hadd
-          refine ⟨?_, this.2⟩
-          intro j hj
-          obtain ⟨i', hi', hm⟩ := this.1 j hj
-          simp only [List.mem_map] at hi'
-          obtain ⟨i0, hi0, rfl⟩ := hi'
-          refine ⟨i0, hi0, ?_⟩
-          split at hm <;> simpa using hm
 
 /-- **the guest memory stays the module's own**: an accepted module keeps exactly one defined
     memory, never turns an existing import into something of another kind or namespace, and
@@ -126,5 +76,198 @@ example : (match apply { ownMems := 1, imports := [
       { module := [101, 110, 118], name := [102], kind := 0 }] } with
     | .rewrite s => s.imports.length
     | _ => 0) = 3 := by decide +kernel
+
+/-! ### a string-carrying import with the wrong signature is refused -/
+
+/-- once the walk meets (or has already failed before meeting) a function import of a
+    string-carrying name whose signature is not the expected one, it fails -/
+theorem applyPairs_bad_sig : ∀ (pairs : List (List Nat × List Nat)) (imps added : List Imp) (nm : Bool)
+    (i : Imp) (ps rs : List Nat), i ∈ imps → i.module = provider → i.kind = 0 →
+    expectedSig? i.name = some (ps, rs) → (i.params ≠ ps ∨ i.results ≠ rs) →
+    (∃ new, (i.name, new) ∈ pairs) →
+    ∃ c, applyPairs pairs imps added nm = .error c := by
+  intro pairs
+  induction pairs with
+  | nil => intro imps added nm i ps rs _ _ _ _ _ hin; obtain ⟨_, h⟩ := hin; cases h
+  | cons p rest ih =>
+    intro imps added nm i ps rs hi hm hk hsig hbad hin
+    obtain ⟨orig, new⟩ := p
+    unfold applyPairs
+    cases hs : stepOne orig new imps added nm with
+    | error c => exact ⟨c, rfl⟩
+    | ok r =>
+      obtain ⟨i1, a1, n1⟩ := r
+      simp only []
+      have hapi : ∀ o, i.isApi o = true ↔ i.name = o := by
+        intro o; simp [Imp.isApi, hm]
+      by_cases hname : i.name = orig
+      · -- this entry is the offending import's: it cannot have succeeded
+        exfalso
+        rcases stepOne_ok hs with ⟨ps', rs', k, hsig', _, _, hall⟩ | ⟨hsig', _, _, _, _⟩
+        · rw [← hname, hsig] at hsig'
+          simp only [Option.some.injEq, Prod.mk.injEq] at hsig'
+          obtain ⟨rfl, rfl⟩ := hsig'
+          have := hall i hi ((hapi orig).mpr hname) hk
+          rcases hbad with hb | hb
+          · exact hb this.1
+          · exact hb this.2
+        · rw [← hname, hsig] at hsig'; cases hsig'
+      · have hin' : ∃ new, (i.name, new) ∈ rest := by
+          obtain ⟨n, hn⟩ := hin
+          rcases List.mem_cons.mp hn with h | h
+          · simp only [Prod.mk.injEq] at h; exact absurd h.1 hname
+          · exact ⟨n, h⟩
+        have hnot : i.isApi orig = false := by
+          cases hc : i.isApi orig with
+          | false => rfl
+          | true => exact absurd ((hapi orig).mp hc) hname
+        apply ih i1 a1 n1 i ps rs ?_ hm hk hsig hbad hin'
+        rcases stepOne_ok hs with ⟨_, _, _, _, rfl, _, _⟩ | ⟨_, _, rfl, _, _⟩
+        · exact List.mem_filter.mpr ⟨hi, by simp [hnot]⟩
+        · rw [List.mem_map]
+          exact ⟨i, hi, by simp [renameFn, hnot]⟩
+
+/-- every string-carrying name is an entry of the IMPORTS table (regenerated tables) -/
+theorem sig_names_in_table : ∀ e ∈ trampolineExpectedSigs, trampolineImportPairs.any (fun p => p.1 == e.1) = true := by
+  decide +kernel
+
+theorem expectedSig_in_table {n : List Nat} {ps rs : List Nat} (h : expectedSig? n = some (ps, rs)) :
+    ∃ new, (n, new) ∈ trampolineImportPairs := by
+  unfold expectedSig? at h
+  cases hf : trampolineExpectedSigs.find? (fun e => e.1 == n) with
+  | none => rw [hf] at h; cases h
+  | some e =>
+    have hmem := List.mem_of_find?_eq_some hf
+    have hname : e.1 = n := by simpa using List.find?_some hf
+    have := sig_names_in_table e hmem
+    rw [List.any_eq_true] at this
+    obtain ⟨p, hp, hpe⟩ := this
+    refine ⟨p.2, ?_⟩
+    have : p.1 = n := by rw [← hname]; simpa using hpe
+    rw [← this]; exact hp
+
+/-- **a string-carrying import with the wrong signature is rejected** — wherever it stands in
+    the import section, whatever else the module imports, also when the same function is
+    imported a second time with the right signature -/
+theorem C07_reject_bad_signature (m : Summary) (h1 : m.ownMems = 1) (i : Imp) (hi : i ∈ m.imports)
+    (hm : i.module = provider) (hk : i.kind = 0) (ps rs : List Nat)
+    (hsig : expectedSig? i.name = some (ps, rs)) (hbad : i.params ≠ ps ∨ i.results ≠ rs) :
+    ∃ c, apply m = .reject c := by
+  unfold apply
+  rw [if_neg (by omega), if_neg (by omega)]
+  split
+  · exact ⟨1, rfl⟩
+  · split
+    · exact ⟨2, rfl⟩
+    · obtain ⟨c, hc⟩ := applyPairs_bad_sig trampolineImportPairs m.imports [] false i ps rs hi hm hk hsig hbad
+        (expectedSig_in_table hsig)
+      rw [hc]
+      exact ⟨c, rfl⟩
+
+/-! ### applying the tool again changes nothing -/
+
+/-- facts about the regenerated tables: no new name is an original name; helper names are known,
+    and none of them — nor `memory` — is an original name -/
+theorem table_new_ne_orig : ∀ p ∈ trampolineImportPairs, ∀ q ∈ trampolineImportPairs, q.2 ≠ p.1 := by decide +kernel
+theorem table_adds_known : ∀ p ∈ trampolineImportPairs, ∀ x ∈ addsFor p.1, knownName x = true := by decide +kernel
+theorem table_adds_ne_orig : ∀ p ∈ trampolineImportPairs, ∀ p' ∈ trampolineImportPairs, ∀ x ∈ addsFor p'.1, x ≠ p.1 := by
+  decide +kernel
+theorem table_alloc : knownName allocName = true ∧ ∀ p ∈ trampolineImportPairs, allocName ≠ p.1 := by decide +kernel
+theorem table_memory : knownName memoryName = true ∧ ∀ p ∈ trampolineImportPairs, memoryName ≠ p.1 := by decide +kernel
+theorem table_new_known : ∀ p ∈ trampolineImportPairs, knownName p.2 = true := by decide +kernel
+
+/-- **idempotence of the rewrite decision**: the import section the tool produces is one the
+    tool accepts and leaves exactly as it is -/
+theorem C07_idempotent (m s : Summary) (h : apply m = .rewrite s) : apply s = .rewrite s := by
+  unfold apply at h
+  split at h
+  · cases h
+  · split at h
+    · cases h
+    · rename_i h2 h0
+      split at h
+      · cases h
+      · rename_i hc1
+        split at h
+        · cases h
+        · rename_i hc2
+          split at h
+          · cases h
+          · rename_i imps added needMem hap
+            simp only [Decision.rewrite.injEq] at h
+            have hmods := applyPairs_modules _ _ _ _ _ _ _ hap (by intro a ha; cases ha)
+            have hnames := applyPairs_names _ _ _ _ _ _ _ hap
+            have hadded := applyPairs_added _ _ _ _ _ _ _ hap
+            have hdone := applyPairs_all_done _ _ _ _ _ _ _ hap table_new_ne_orig
+            -- the three kinds of imports of `s`
+            have hcases : ∀ j ∈ s.imports,
+                (j ∈ imps) ∨
+                (j.module = provider ∧ ((∃ p ∈ trampolineImportPairs, j.name ∈ addsFor p.1) ∨ j.name = allocName)) ∨
+                (j.module = provider ∧ j.name = memoryName) := by
+              intro j hj
+              rw [← h] at hj
+              simp only [List.mem_append] at hj
+              rcases hj with (hj | hj) | hj
+              · exact Or.inl hj
+              · rcases hadded j hj with hx | ⟨hm, _, hn⟩
+                · cases hx
+                · exact Or.inr (Or.inl ⟨hm, hn⟩)
+              · split at hj
+                · simp at hj; subst hj; exact Or.inr (Or.inr ⟨rfl, rfl⟩)
+                · cases hj
+            have hnot1 : ¬ (s.imports.any (fun i => i.module == provider && !knownName i.name) = true) := by
+              rw [List.any_eq_true]
+              rintro ⟨j, hj, hbad⟩
+              simp only [Bool.and_eq_true, beq_iff_eq, Bool.not_eq_true'] at hbad
+              rcases hcases j hj with hji | ⟨_, hn⟩ | ⟨_, hn⟩
+              · rcases hnames j hji with hjm | ⟨_, p, hp, hn⟩
+                · apply hc1
+                  rw [List.any_eq_true]
+                  exact ⟨j, hjm, by simp [hbad.1, hbad.2]⟩
+                · rw [hn, table_new_known p hp] at hbad; cases hbad.2
+              · rcases hn with ⟨p, hp, hx⟩ | hx
+                · rw [table_adds_known p hp _ hx] at hbad; cases hbad.2
+                · rw [hx, table_alloc.1] at hbad; cases hbad.2
+              · rw [hn, table_memory.1] at hbad; cases hbad.2
+            have hnot2 : ¬ (s.imports.any (fun i => versionPrefix.isPrefixOf i.module && i.module != provider) = true) := by
+              rw [List.any_eq_true]
+              rintro ⟨j, hj, hbad⟩
+              simp only [Bool.and_eq_true, bne_iff_ne, ne_eq] at hbad
+              rcases hcases j hj with hji | ⟨hm, _⟩ | ⟨hm, _⟩
+              · obtain ⟨i, hi, hmod, _⟩ := hmods.1 j hji
+                apply hc2
+                rw [List.any_eq_true]
+                exact ⟨i, hi, by simp only [Bool.and_eq_true, bne_iff_ne, ne_eq]; rw [hmod]; exact hbad⟩
+              · exact hbad.2 hm
+              · exact hbad.2 hm
+            have hsettled : ∀ p ∈ trampolineImportPairs, Done p.1 s.imports := by
+              intro p hp j hj hapi
+              have hname : j.name = p.1 := by
+                simp only [Imp.isApi, Bool.and_eq_true, beq_iff_eq] at hapi; exact hapi.2
+              rcases hcases j hj with hji | ⟨_, hn⟩ | ⟨_, hn⟩
+              · exact hdone p hp j hji hapi
+              · exfalso
+                rcases hn with ⟨p', hp', hx⟩ | hx
+                · exact table_adds_ne_orig p hp p' hp' _ hx hname
+                · exact table_alloc.2 p hp (hx ▸ hname)
+              · exfalso
+                exact table_memory.2 p hp (hn ▸ hname)
+            have hown : s.ownMems = 1 := by rw [← h]
+            unfold apply
+            rw [if_neg (by omega), if_neg (by omega), if_neg hnot1, if_neg hnot2,
+              applyPairs_settled trampolineImportPairs s.imports [] false hsettled]
+            simp only [Bool.false_eq_true, if_false, List.append_nil]
+            cases s
+            simp only at hown
+            subst hown
+            rfl
+
+/-- non-vacuity, and the F11 shape: the same function imported twice, the second time with a
+    wrong signature, is refused -/
+example : (match apply { ownMems := 1, imports := [
+      { module := provider, name := nmLog, kind := 0, params := [0, 0], results := [] },
+      { module := provider, name := nmLog, kind := 0, params := [1], results := [] }] } with
+    | .reject 3 => true
+    | _ => false) = true := by decide +kernel
 
 end SfVerif.Props.C07
